@@ -62,6 +62,7 @@ var fixed = []sample{
 	{"text/html", "<script>var a = ;</script><p>x"},
 	{"text/css", ""},
 	{"application/json", ""},
+	{"application/javascript", "var a;foo();var b=1"}, // output not in input order (declarations are merged): output buffers must not alias the input
 	// documents whose output is empty: the only write is the final probe w.Write(nil)
 	{"application/javascript", ""}, {"application/javascript", ";"}, {"application/javascript", "// c\n{}"},
 	{"text/html", ""}, {"text/html", "<!-- c -->"}, {"text/xml", ""}, {"text/xml", "<!-- c -->"},
@@ -328,7 +329,15 @@ func scriptOf(cs [][]byte, failAt int) string {
 	return strings.Join(parts, ",")
 }
 
+// a panic inside an entry point is a violation with the sample as failing input, not a failure of the tool
+func recoverAsViolation(s sample, where string) {
+	if e := recover(); e != nil {
+		viol("panic:"+where, s, fmt.Sprint(e), "panic: "+fmt.Sprint(e), "no panic", map[string]string{"where": where})
+	}
+}
+
 func runChunk(m *minify.M, s sample, cs [][]byte, r *vh.Rand) {
+	defer recoverAsViolation(s, "entry-points")
 	p := plain(m, s)
 	probe := len(p.calls) > 0 && len(p.calls[len(p.calls)-1]) == 0
 	opts := map[string]string{"chunks": chunkDesc(cs)}
@@ -484,6 +493,7 @@ func runChunk(m *minify.M, s sample, cs [][]byte, r *vh.Rand) {
 }
 
 func runFault(m *minify.M, s sample, r *vh.Rand) {
+	defer recoverAsViolation(s, "fault-injection")
 	in := []byte(s.in)
 	p := plain(m, s)
 	probe := len(p.calls) > 0 && len(p.calls[len(p.calls)-1]) == 0
